@@ -15,8 +15,13 @@ from engine.explore import Violation
 
 
 class Responder:
-    def __init__(self, c, ports, wmin=3, rmin=6, qmax=3, mem_init=None, addr_ok=None, name="core"):
+    def __init__(self, c, ports, wmin=3, rmin=6, qmax=3, mem_init=None, addr_ok=None, name="core", decoupled=False, wq_depth=2):
+        """decoupled=True models a native port that sits behind stream buffering (clock-domain-crossing or width-converted port as returned
+        by LiteDRAMCrossbar.get_port): write data is an ordinary stream whose ready is independent of the commands (a beat moves when
+        valid & ready and is queued), a write takes effect when its command was accepted AND its beat has been queued, and read data is
+        offered with valid held until ready.  Frontends must work on such ports as well."""
         self.c = c; self.ports = ports; self.wmin = wmin; self.rmin = rmin; self.qmax = qmax
+        self.decoupled = decoupled; self.wq_depth = wq_depth
         self.mem_init = mem_init or (lambda a: 0)
         self.addr_ok = addr_ok or (lambda p, a: True)
         ii = c.ii
@@ -40,7 +45,7 @@ class Responder:
 
     # state: (cq, mem)   cq: tuple of (port, we, addr, age)   mem: sorted tuple of (addr, word)
     def init(self):
-        return ((), ())
+        return ((), (), tuple(() for _ in self.ports)) if self.decoupled else ((), ())
 
     def mem_get(self, mem, a):
         for k, v in mem:
@@ -51,21 +56,22 @@ class Responder:
         d = dict(mem); d[a] = v
         return tuple(sorted(d.items()))
 
-    def eligible(self, cq):
+    def eligible(self, cq, wqs=None):
         """indices of commands that may be served now"""
         out = []
         seen_port = set(); seen_addr = set()
         for i, (p, we, a, age) in enumerate(cq):
             ok = p not in seen_port and a not in seen_addr and age >= (self.wmin if we else self.rmin)
+            if ok and we and wqs is not None and not wqs[p]: ok = False
             if ok: out.append(i)
             seen_port.add(p); seen_addr.add(a)
         return out
 
     def menu(self, rs, readies=None):
         """list of responder choices (ready_bits, serve_tuple); default answer (all ready, serve earliest) first"""
-        cq, mem = rs
+        cq, mem = rs[0], rs[1]
         full = len(cq) >= self.qmax
-        el = self.eligible(cq)
+        el = self.eligible(cq, rs[2] if self.decoupled else None)
         serves = []
         if el:
             serves.append((el[0],))
@@ -80,30 +86,56 @@ class Responder:
             rb = [0]
         else:
             rb = list(range((1 << self.np) - 1, -1, -1)) if readies is None else readies
+        if self.decoupled:
+            # third component: bit mask of ports whose write-data stream is ready this cycle (only while their beat queue has room)
+            room = sum(1 << k for k in range(self.np) if len(rs[2][k]) < self.wq_depth)
+            wr = sorted({room & m for m in range(1 << self.np)}, reverse=True)
+            return [(r, s, w) for r in rb for s in serves for w in wr]
         return [(r, s) for r in rb for s in serves]
 
+    def default_choice(self, rs):
+        """the cooperative answer: every ready high, oldest eligible command served"""
+        cq = rs[0]
+        el = self.eligible(cq, rs[2] if self.decoupled else None)
+        rb = ((1 << self.np) - 1) if len(cq) < self.qmax else 0
+        sv = (el[0],) if el else ()
+        if self.decoupled:
+            return (rb, sv, sum(1 << k for k in range(self.np) if len(rs[2][k]) < self.wq_depth))
+        return (rb, sv)
+
     def drive(self, rs, rch, I):
-        cq, mem = rs
-        rb, serve = rch
+        cq, mem = rs[0], rs[1]
+        rb, serve = rch[0], rch[1]
+        if self.decoupled:
+            for k in range(self.np):
+                if self.i_wready[k] is not None: I[self.i_wready[k]] = (rch[2] >> k) & 1
         for k in range(self.np):
             if self.i_ready[k] is not None: I[self.i_ready[k]] = (rb >> k) & 1
         for i in serve:
             p, we, a, age = cq[i]
             if we:
-                if self.i_wready[p] is not None: I[self.i_wready[p]] = 1
+                if not self.decoupled and self.i_wready[p] is not None: I[self.i_wready[p]] = 1
             else:
                 if self.i_rvalid[p] is not None: I[self.i_rvalid[p]] = 1
                 if self.i_rdata[p] is not None: I[self.i_rdata[p]] = self.mem_get(mem, a)
 
     def observe(self, rs, rch, S, I, O):
         """returns (rs2, events) ; events: list of ('w', port, addr) / ('r', port, addr, data) / ('acc', port, we, addr)"""
-        cq, mem = rs
-        rb, serve = rch
+        cq, mem = rs[0], rs[1]
+        rb, serve = rch[0], rch[1]
         evs = []
         served = set(serve)
+        wqs = [list(q) for q in rs[2]] if self.decoupled else None
         for i in serve:
             p, we, a, age = cq[i]
-            if we:
+            if we and self.decoupled:
+                d, m = wqs[p].pop(0)
+                w = self.mem_get(mem, a)
+                for b in range(self.nbytes[p]):
+                    if (m >> b) & 1: w = (w & ~(0xff << (8 * b))) | (d & (0xff << (8 * b)))
+                mem = self.mem_set(mem, a, w)
+                evs.append(("w", p, a, d, m))
+            elif we:
                 if not self.r_wvalid[p](S, I, O):
                     raise Violation("port.write_beat_lost", "memory took the write data for address %d on port %d but the frontend was not offering any (wdata.valid low at the strobe)" % (a, p), port=p)
                 d = self.r_wdata[p](S, I, O); m = self.r_wwe[p](S, I, O)
@@ -112,6 +144,8 @@ class Responder:
                     if (m >> b) & 1: w = (w & ~(0xff << (8 * b))) | (d & (0xff << (8 * b)))
                 mem = self.mem_set(mem, a, w)
                 evs.append(("w", p, a, d, m))
+            elif self.decoupled and not self.r_rready[p](S, I, O):
+                served.discard(i)          # stream semantics: the word stays offered until the frontend takes it
             else:
                 if not self.r_rready[p](S, I, O):
                     raise Violation("port.read_word_dropped", "memory returned the data of address %d on port %d while the frontend was not ready (rdata.ready low)" % (a, p), port=p)
@@ -130,7 +164,13 @@ class Responder:
                     raise Violation("port.address_out_of_range", "frontend issued address %d on port %d outside the addressed window" % (a, k), port=k)
                 ncq.append((k, we, a, 1))
                 evs.append(("acc", k, we, a))
+        if self.decoupled:
+            for k in range(self.np):
+                if (rch[2] >> k) & 1 and self.r_wvalid[k](S, I, O):
+                    wqs[k].append((self.r_wdata[k](S, I, O), self.r_wwe[k](S, I, O)))
+                    evs.append(("wbeat", k))
+            return (tuple(ncq), mem, tuple(tuple(q) for q in wqs)), evs
         return (tuple(ncq), mem), evs
 
     def idle(self, rs):
-        return not rs[0]
+        return not rs[0] and (not self.decoupled or not any(rs[2]))
